@@ -395,6 +395,10 @@ Section UnitAlgebra.
   Variable fone : F.
   Variable single : str -> option (unit_ F).       (* get_single_unit; None = cmac_error *)
   Variables c_planck c_light : F.
+  (* pow_zero_pinned: [true] = Unit::operator^= of the pinned commit, whose branch "power >= 0" leaves the
+     scale factor untouched for power = 0 (DESIGN O2); [false] = repaired code ("power > 0": exponent 0 takes
+     the other branch, which starts from 1 and divides zero times) *)
+  Variable pow_zero_pinned : bool.
 
   Definition umul (u v : unit_ F) : unit_ F := mkUnit (fmul (uval u) (uval v)) (zip_with Z.add (uexp u) (uexp v)).
   Definition udiv (u v : unit_ F) : unit_ F := mkUnit (fdiv (uval u) (uval v)) (zip_with Z.sub (uexp u) (uexp v)).
@@ -403,10 +407,10 @@ Section UnitAlgebra.
   Fixpoint rep (op : F -> F -> F) (n : nat) (acc v : F) : F :=
     match n with O => acc | S k => rep op k (op acc v) v end.
 
-  (* Unit::operator^= : power >= 0: i = 1; while (i < power) _value *= value;
-                        power <  0: _value = 1; i = 0; while (i < -power) _value /= value *)
+  (* Unit::operator^= : first branch (power >= 0, repaired: power > 0): i = 1; while (i < power) _value *= value;
+                        otherwise: _value = 1; i = 0; while (i < -power) _value /= value *)
   Definition upow (u : unit_ F) (p : Z) : unit_ F :=
-    mkUnit (if (0 <=? p)%Z then rep fmul (Z.to_nat (p - 1)) (uval u) (uval u)
+    mkUnit (if (if pow_zero_pinned then (0 <=? p)%Z else (0 <? p)%Z) then rep fmul (Z.to_nat (p - 1)) (uval u) (uval u)
             else rep fdiv (Z.to_nat (- p)) fone (uval u))
            (map (fun e => (e * p)%Z) (uexp u)).
 
@@ -520,10 +524,11 @@ Fixpoint lookup_unit (n : str) (t : list (string * (float * list Z))) : option (
 
 Definition f_single (n : str) : option (unit_ float) := lookup_unit n unit_table.
 
-Definition f_get_unit := get_unit float PrimFloat.mul PrimFloat.div 1%float f_single.
-Definition f_to_SI (q : nat) := to_SI float PrimFloat.mul PrimFloat.div 1%float f_single f_planck f_light (si_name q).
-Definition f_to_unit (q : nat) := to_unit float PrimFloat.mul PrimFloat.div 1%float f_single f_planck f_light (si_name q).
-Definition f_convert := convert float PrimFloat.mul PrimFloat.div 1%float f_single f_planck f_light.
+(* first argument: pow_zero_pinned *)
+Definition f_get_unit (pz : bool) := get_unit float PrimFloat.mul PrimFloat.div 1%float f_single pz.
+Definition f_to_SI (pz : bool) (q : nat) := to_SI float PrimFloat.mul PrimFloat.div 1%float f_single f_planck f_light pz (si_name q).
+Definition f_to_unit (pz : bool) (q : nat) := to_unit float PrimFloat.mul PrimFloat.div 1%float f_single f_planck f_light pz (si_name q).
+Definition f_convert (pz : bool) := convert float PrimFloat.mul PrimFloat.div 1%float f_single f_planck f_light pz.
 
 (* a and b differ by at most one unit in the last place *)
 Definition within_1ulp (a b : float) : bool :=
